@@ -281,6 +281,54 @@ def run(ctx):
     for i in range(n_rand):
         t = g.gen_type(rng, rng.choice([1, 2, 2, 3, 3, 4]), packable=True, pairs_ok=pairs_ok)
         cases.append(('random', t, g.gen_value(rng, t, pairs_ok)))
+    # type twins: right after a value, the SAME Python-level content at a sibling type (base58 texts as plain strings, nat <-> int):
+    # the runtime objects of both compare and hash equal (StringType / IntType), their packed forms differ — a result remembered per
+    # value instead of per (type, value) would hand one type the other's bytes
+    DOMT = set(g.TYPE_TO_KIND)
+
+    def twin_t(t):
+        p = t['prim']
+        if p in DOMT and p != 'contract':
+            return {'prim': 'string'}
+        if p == 'contract':
+            return {'prim': 'string'}
+        if p == 'nat':
+            return {'prim': 'int'}
+        d = {'prim': p}
+        if 'args' in t:
+            d['args'] = [twin_t(a) for a in t['args']]
+        return d
+
+    def twin_v(sv):
+        k = sv[0]
+        if k == 'dom':
+            return ('str', g.dom_text(*sv[1:]))
+        if k in ('some', 'left', 'right'):
+            return (k, twin_v(sv[1]))
+        if k == 'pair':
+            return ('pair', twin_v(sv[1]), twin_v(sv[2]))
+        return sv
+
+    def twinnable(t):
+        p = t['prim']
+        if p in ('pair', 'option', 'or'):
+            return all(twinnable(a) for a in t['args'])
+        return p in DOMT or p in ('nat', 'int', 'string', 'bytes', 'unit', 'bool', 'mutez')
+
+    def has_twin_leaf(t):
+        return t['prim'] in DOMT or t['prim'] == 'nat' or any(has_twin_leaf(a) for a in t.get('args', []) if isinstance(a, dict))
+    twins = []
+    for _ in range(60 if ctx.tier == 'quick' else 3000):
+        t = g.binarize(g.gen_type(rng, rng.choice([1, 2, 2, 3]), packable=True, pairs_ok=pairs_ok))
+        if not (twinnable(t) and has_twin_leaf(t)):
+            leaf = rng.choice(['address', 'key_hash', 'key', 'chain_id', 'signature', 'nat'])
+            t = rng.choice([{'prim': 'pair', 'args': [{'prim': leaf}, {'prim': 'nat'}]}, {'prim': 'option', 'args': [{'prim': leaf}]},
+                            {'prim': 'or', 'args': [{'prim': leaf}, {'prim': 'unit'}]}, {'prim': 'pair', 'args': [{'prim': 'string'}, {'prim': leaf}]}])
+        sv = g.gen_value(rng, t, pairs_ok)
+        a, b = ('twin', t, sv), ('twin', twin_t(t), twin_v(sv))
+        twins += [a, b] if rng.random() < 0.5 else [b, a]
+    cases += twins
+    ctx.hist.setdefault('type_twins', {})['pairs'] = len(twins) // 2
     # a few unpackable types: PACK must raise
     for t in [{'prim': 'big_map', 'args': [{'prim': 'nat'}, {'prim': 'nat'}]}, {'prim': 'ticket', 'args': [{'prim': 'nat'}]},
               {'prim': 'pair', 'args': [{'prim': 'nat'}, {'prim': 'sapling_state', 'args': [{'int': '8'}]}]},
